@@ -16,7 +16,8 @@ EXPLANATION = (
     'length of the very list it sums; (C14.2) folds that fail on an empty input (min, max, division by a length) are guarded on '
     'the *filtered* collection; (C14.3) SUMPRODUCT compares the shapes (rows x columns) of all arrays before multiplying and '
     'rejects a mismatch with #VALUE!; (C14.4) COUNT counts by Number.is_type, COUNTA by not Blank.is_blank, over the flattened '
-    'arguments; (C14.5) the array handed to the aggregates is rebuilt from the cells on every evaluation (shares C04.1).')
+    'arguments; (C14.5) the array handed to the aggregates is rebuilt from the cells on every evaluation (shares C04.1).'
+    ' (C14.6) the aggregates as the evaluator calls them - the registered object, i.e. validate_args as written (casts, TYPE_TO_CAST, typing constructs) and then the body, with the real class predicates - on witness argument lists: blanks and texts take no part, a stored 0 does, arrays are flattened.')
 NOT_DECIDED = 'the sums themselves, permutation invariance, additivity, MIN<=AVERAGE<=MAX (numeric)'
 TRUSTED = ['Number.is_type = isinstance of Number or a native number']
 
